@@ -54,7 +54,7 @@ def _row(tree, i):
     return jax.tree.map(lambda x: np.asarray(x)[i], tree)
 
 
-def walk_stream(ctx: Ctx, spec, interp, buf, e, E, cap, n_from, n_to, start, tags, atab=None, final=None):
+def walk_stream(ctx: Ctx, spec, interp, buf, e, E, cap, n_from, n_to, start, tags, atab=None, final=None, chooser=None):
     """Check rows with insertion numbers n_from..n_to-1 of environment e against the interpreter.
     start = (s, c, p, acc) or None (unknown: derive from the first row)."""
     pick = (lambda x: np.asarray(x)) if E == 1 else (lambda x: np.asarray(x)[e])
@@ -76,6 +76,10 @@ def walk_stream(ctx: Ctx, spec, interp, buf, e, E, cap, n_from, n_to, start, tag
         a = acts[i]
         if atab is not None:
             ctx.check(np.array_equal(np.asarray(a, np.float64), np.asarray(atab[s], np.float64)), "C05/stored-action-not-the-chosen-one", tags=tags, n=n, chosen=atab[s], stored=a)
+        if chooser is not None:
+            exp_a = chooser(s)
+            if exp_a is not None:
+                ctx.check(int(a) == int(exp_a), "C05/stored-action-not-the-current-policys-choice", tags=tags, n=n, env=e, state=s, stored=int(a), expected=int(exp_a))
         ca = interp.clip(a)
         if interp.box and not np.array_equal(ca, np.asarray(a, np.float64)):
             flags["clip"] = True
